@@ -441,6 +441,42 @@ def alpha_graph(ctx, i):
     ctx.case({"alpha": gen.shape_of(ren)}, True)
 
 
+def mapped_gated_rename(ctx, i):
+    """A MAPPED nested graph whose items take different gate branches (so items produce different outputs), with the
+    wrapper's outputs renamed (single, swap, chain): every list appears under the new name with each item's value at
+    that item's position, exactly what the un-renamed node gives under the old names."""
+    rng = ctx.rng
+    inner = {
+        "name": "inner",
+        "nodes": [
+            {"k": "ifelse", "name": "pick", "params": [{"n": "x"}], "t": "on_t", "f": "on_f", "key": "x", "table": [True, False]},
+            {"k": "fn", "name": "on_t", "params": [{"n": "x"}], "outs": ["t_out"]},
+            {"k": "fn", "name": "on_f", "params": [{"n": "x"}], "outs": ["f_out"] if rng.random() < 0.6 else ["f_out", "f_extra"]},
+        ],
+        "bind": {},
+    }
+    outs = ["t_out"] + inner["nodes"][2]["outs"]
+    hist, _ = gen_history(rng, outs, rng.randint(1, 3), "w")
+    fo = ref.forward_map(outs, hist)
+    items = [rng.randint(0, 9) for _ in range(rng.randint(2, 5))]
+    plain = {"name": "outer", "nodes": [{"k": "sub", "name": "inner", "prog": inner, "map": {"over": ["x"], "mode": "zip", "err": "raise"}}], "bind": {}}
+    ren = copy.deepcopy(plain)
+    ren["nodes"][0]["rename_out"] = [dict(b) for b in hist if b]
+    case = {"program": "mapped if/else graph, wrapper outputs renamed", "history": hist, "items": items, "spec": ren}
+    for runner in ("sync", "async"):
+        o1 = core.execute(core.with_async(plain, runner == "async", rng), {"x": items}, runner, warm=False)
+        o2 = core.execute(core.with_async(ren, runner == "async", rng), {"x": items}, runner, warm=False)
+        ctx.obs["mapped_gated_renames"] += 1
+        if o1.exc is not None or o2.exc is not None:
+            ctx.violation("C06:mapped-rename-raised", f"{runner}: plain -> {o1.exc!r}; renamed -> {o2.exc!r}", case)
+            continue
+        exp = {fo[k]: v for k, v in o1.values.items()}
+        if o2.values != exp:
+            diff = sorted(k for k in set(exp) | set(o2.values) if exp.get(k, "<absent>") != o2.values.get(k, "<absent>"))
+            ctx.violation("C06:mapped-rename-values", f"{runner}: items {items}: renamed wrapper differs on {diff}: {core.short({k: o2.values.get(k, '<absent>') for k in diff})} vs {core.short({k: exp.get(k, '<absent>') for k in diff})} (history {hist})", case)
+    ctx.case({"mapped-rename": canon(hist), "first": items[0] % 2}, True)
+
+
 def run(ctx):
     n = 130 if ctx.tier == "quick" else 5500
     if ctx.replay:
@@ -451,3 +487,5 @@ def run(ctx):
             one_history(ctx, kind, i)
         if i % 3 == 0:
             alpha_graph(ctx, i)
+        if i % 3 == 1:
+            mapped_gated_rename(ctx, i)
